@@ -125,6 +125,25 @@ Proof.
   rewrite Cr. ring.
 Qed.
 
+(* the scalar core of meeting_beyond / meeting_inside_opposite *)
+Lemma tour_scalar (A B C x0 x1 x2 d : R) :
+  A - x0 + x1 = 0 -> C - x2 - x0 = 0 -> A * x2 = - B * x0 + C * x1 + d * 0 ->
+  0 < A + B - C -> 0 < B + C - A -> 0 < A + C - B -> B - x1 + x2 < 0.
+Proof.
+  intros Ea Eb Cr K0 K1 K2.
+  assert (E1 : x1 = x0 - A) by lra. assert (E2 : x2 = C - x0) by lra. subst x1 x2.
+  assert (Ex0 : x0 * (A + C - B) = 2 * A * C) by lra.
+  assert (Ek : (A + C - B) * (B - (x0 - A) + (C - x0)) = (A - C - B) * (A - C + B)).
+  { replace ((A + C - B) * (B - (x0 - A) + (C - x0))) with ((A + C - B) * (A + B + C) - 2 * (x0 * (A + C - B))) by ring.
+    rewrite Ex0. ring. }
+  assert (H1 : (A - C - B) * (A - C + B) < 0).
+  { replace ((A - C - B) * (A - C + B)) with (- ((B + C - A) * (A + B - C))) by ring.
+    assert (0 < (B + C - A) * (A + B - C)) by (apply Rmult_lt_0_compat; assumption). lra. }
+  rewrite <- Ek in H1.
+  destruct (Rlt_le_dec (B - (x0 - A) + (C - x0)) 0) as [Hn|Hp]; [exact Hn|].
+  exfalso. assert (0 <= (A + C - B) * (B - (x0 - A) + (C - x0))) by (apply Rmult_le_pos; lra). lra.
+Qed.
+
 (* ---------- one hexagon seen from one of its vertices ---------- *)
 Section Local.
   Context (c u q0 q1 q2 q3 q4 q5 : rvec).
@@ -253,11 +272,7 @@ Section Local.
     fold p1 p2 x in Rm. fold B x1 x2 in Rm.
     assert (HB : 0 < B) by lra.
     assert (HS : 0 < A + C - B) by lra.
-    assert (Ex0 : x0 * (A + C - B) = 2 * A * C) by nra.
-    assert (Ek : (A + C - B) * (B - x1 + x2) = (A - C - B) * (A - C + B)) by nra.
-    assert (Hk : B - x1 + x2 < 0).
-    { assert (H1 : (A - C - B) * (A - C + B) < 0) by nra.
-      rewrite <- Ek in H1. nra. }
+    assert (Hk : B - x1 + x2 < 0) by (exact (tour_scalar A B C x0 x1 x2 _ Ea Eb Cr K0 K1 K2)).
     assert (Hsq : 0 < pf pm c * pf pm c) by nra.
     assert (E : B * (pf pm X * pf pm c) = pf pm c * pf pm c * (B - x1 + x2)) by (rewrite <- Rmult_assoc, Rm; ring).
     assert (pf pm c * pf pm c * (B - x1 + x2) < 0) by nra.
@@ -321,11 +336,7 @@ Section Local.
     rewrite F0, F1, F2 in Rm.
     assert (HB : 0 < B) by lra.
     assert (HS : 0 < A + C - B) by lra.
-    assert (Ex0 : x0 * (A + C - B) = 2 * A * C) by nra.
-    assert (Ek : (A + C - B) * (B - x1 + x2) = (A - C - B) * (A - C + B)) by nra.
-    assert (Hk : B - x1 + x2 < 0).
-    { assert (H1 : (A - C - B) * (A - C + B) < 0) by nra.
-      rewrite <- Ek in H1. nra. }
+    assert (Hk : B - x1 + x2 < 0) by (exact (tour_scalar A B C x0 x1 x2 _ Ea Eb Cr K0 K1 K2)).
     assert (Hsq : 0 < pf po c * pf po c) by nra.
     assert (E : B * (pf po X * pf po c) = pf po c * pf po c * (B - - x1 + - x2)) by (rewrite <- Rmult_assoc, Rm; ring).
     assert (0 < pf po c * pf po c * (B - - x1 + - x2)) by (apply Rmult_lt_0_compat; lra).
